@@ -77,7 +77,7 @@ def _is_finite(x):
         return False
 
 
-def run_scenario(spec, with_model=True, blog=None):
+def run_scenario(spec, with_model=True, blog=None, on_built=None, on_eval=None):
     """returns dict(diff, lines, expect, got, real) - `real` carries what the monitors look at"""
     space, opt = build_optimizer(spec)
     names = list(space)
@@ -104,8 +104,12 @@ def run_scenario(spec, with_model=True, blog=None):
     rec = None
     records = []
     clock = drv.VClock(0)
+    if on_built is not None:
+        on_built(opt)
     rec = drv.Recorder(opt, f, dur_of_step, clock, by_call)
     rec.blog = blog
+    if on_eval is not None:
+        rec.on_eval = lambda: on_eval(opt)
     with drv.patched_driver_modules(clock):
         for cs in opt_calls:
             mem = cs.get("memory", "on")
